@@ -37,6 +37,12 @@ def parseCOp : Sexp → Option COp
 def showContents (isSet : Bool) (c : List Nat) : String :=
   "C[" ++ ",".intercalate ((if isSet then hashOrder c else c).map toString) ++ "]"
 
+/-- `(keys k0 k1 …)`: the value object i compares by; absent = all objects pairwise unequal -/
+def parseKey (items : List Sexp) : Nat → Nat :=
+  match (Sexp.field? items "keys").bind parseNats with
+  | some ks => fun o => ks.getD o (o + ks.length + 1000)
+  | none => id
+
 def elems : COp → List Nat
   | .append x => [x] | .extend xs => xs | .insert _ x => [x] | .setitem _ x => [x]
   | .assign xs => xs | .assignSelf => [] | .iadd xs => xs | .iaddAlias xs => xs
@@ -71,11 +77,12 @@ def run (s : Sexp) : String :=
       if !wf then "error=ill-formed-case" else
       let R := schemaRules S W
       let fuel := fuelFor S W
-      let start (Q : Quirks) : CState := runC Q isSet ⟨[], []⟩ (init.map .append)
+      let key := parseKey items
+      let start (Q : Quirks) : CState := runC key Q isSet ⟨[], []⟩ (init.map .append)
       let out (Q : Quirks) : String :=
-        let σ := runC Q isSet (start Q) ops
+        let σ := runC key Q isSet (start Q) ops
         showContents isSet σ.c ++ "|" ++ showRels (PD.run R fuel (σ.calls.map fun t => (f, a, t)))
-      let sp := specC isSet (specC isSet ⟨[], []⟩ (init.map .append)) ops
+      let sp := specC key isSet (specC key isSet ⟨[], []⟩ (init.map .append)) ops
       let cl := closure R fuel (sp.calls.map fun t => (f, a, t))
       let spec := if cl.2 then showContents isSet sp.c ++ "|" ++ showRels cl.1 else "spec-diverged"
       -- F-C16-1..4 are repaired in /repo (fix commits 1406c8c, 86aebcb): the model tied to the code is `Quirks.none`,
@@ -99,18 +106,19 @@ def run (s : Sexp) : String :=
       let fuel := fuelFor S W
       let later := laterWriteback S W f a
       let hasB := ops.any (· == .adopt)
-      let σ0 : TState := ⟨runC Quirks.none isSet ⟨[], []⟩ (init.map .append), ⟨[], []⟩, false, .A, false⟩
+      let key := parseKey items
+      let σ0 : TState := ⟨runC key Quirks.none isSet ⟨[], []⟩ (init.map .append), ⟨[], []⟩, false, .A, false⟩
       let showT (σ : TState) (rels : List Fact) : String :=
         "A" ++ (showContents isSet σ.a.c).drop 1 ++ "|B" ++
           (if hasB then (showContents isSet σ.b.c).drop 1 else "[-]") ++ "|" ++ showRels rels
       let facts (σ : TState) : List Fact := (σ.a.calls.map fun t => (f, a, t)) ++ (σ.b.calls.map fun t => (f, b, t))
       let out (T : TQuirks) : String :=
-        let σ := runT Quirks.none T later isSet σ0 ops
+        let σ := runT key Quirks.none T later isSet σ0 ops
         if σ.broke then "exc:AttributeError" else showT σ (PD.run R fuel (facts σ))
-      let sp := specT isSet σ0 ops
+      let sp := specT key isSet σ0 ops
       let cl := closure R fuel (facts sp)
       let spec := if cl.2 then showT sp cl.1 else "spec-diverged"
-      let asIs := runT Quirks.none TQuirks.asIs later isSet σ0 ops
+      let asIs := runT key Quirks.none TQuirks.asIs later isSet σ0 ops
       let trig := (if trigAdoptShares ops then ["F-C16-5"] else []) ++ (if asIs.broke then ["F-C16-6"] else [])
       s!"model={out TQuirks.asIs}\tspec={spec}\ttrig={",".intercalate trig}\tmodel_fixed={out TQuirks.none}" ++
       s!"\tmodel_fix_share={out ⟨false, true⟩}\tmodel_fix_ctor={out ⟨true, false⟩}"
